@@ -68,11 +68,25 @@ func checkC02Stress(s *StressCase) *Outcome {
 	if r.RefErr != nil {
 		return bad("harness: stress program rejected by the reference: %v", r.RefErr)
 	}
-	runBackends(c, r, run.AllBackends)
+	if s.N > astModeFrom {
+		runBackendsAST(c, r, run.AllBackends)
+	} else {
+		runBackends(c, r, run.AllBackends)
+	}
 	for _, b := range r.Runs {
 		if b.O.Be == run.VMCall && b.O.Failed() && b.O.FailText() == "over exec limit" && excludedFamily("callthread-exec-limit") {
 			return skip("known:callthread-exec-limit")
 		}
+	}
+	if capacityExceeded(r.Core) {
+		// the VM may refuse the program at compile time; the other back ends must still make progress
+		var kept []*BackendRun
+		for _, b := range r.Runs {
+			if b.O.Compiled() || !(b.O.Be == run.VMSwitch || b.O.Be == run.VMCall) {
+				kept = append(kept, b)
+			}
+		}
+		r.Runs = kept
 	}
 	if err := checkProgress(c, r); err != nil {
 		return &Outcome{Err: err}
@@ -92,7 +106,7 @@ func TestC02(t *testing.T) {
 	runRegress(t, "C02")
 	var big []int
 	if Tier == "thorough" {
-		big = []int{1000, 5000, 20000}
+		big = []int{1000, 5000, 20000, 65535, 65536}
 	}
 	c02stress.Each(t, "stress-classes", eachStress(big))
 	c02.Run(t, budget(8000, 400000))
